@@ -1,15 +1,29 @@
 --------------------------- MODULE Trace_Subscriber ---------------------------
 (* Trace specification for C14: a trace recorded from the real beacon committee subscriber,     *)
-(* attestation aggregator (AggregatorsAndSignatures) and controller (subscribeToBeaconCommittees*)
-(* and AttestAndScheduleAggregate) is a behaviour of Subscriber.                                *)
-(*   Duty       the scripted duty oracle gains a duty; h is computed by the driver from the     *)
-(*              signature its scripted signer will hand out for (validator, slot)               *)
-(*   Subscribe  info = the controller's stored subscription info for the epoch after the call,  *)
-(*              subs = what the recording submitter received (after the submit goroutine ended) *)
+(* attestation aggregator (AggregatorsAndSignatures) and controller (HandleHeadEvent ->         *)
+(* refreshAttesterDutiesForEpoch, subscribeToBeaconCommittees, AttestAndScheduleAggregate) is a *)
+(* behaviour of Subscriber.                                                                     *)
+(*   Duty       the scripted duty oracle gains (op "add") or loses (op "drop") a duty; h is     *)
+(*              computed by the driver from the signature its scripted signer hands out for     *)
+(*              (validator, slot)                                                               *)
+(*   Subscribe  a synchronous subscribeToBeaconCommittees; ok = the scripted beacon node        *)
+(*              answered; info = the controller's stored subscription info for the epoch after  *)
+(*              the call, subs = what the recording submitter received (after the submit        *)
+(*              goroutine ended)                                                                *)
+(*   Head       HandleHeadEvent returned and everything it started has ended or is held at the  *)
+(*              gate of the scripted beacon node; reorg = the event carried a changed duty      *)
+(*              dependent root that concerns the epoch; resub = re-subscriptions newly held at  *)
+(*              the gate; info = the stored info                                                *)
+(*   Resub      a held re-subscription was let go (ok: the node answers; ~ok: the node fails)   *)
+(*              and has ended; info = the stored info afterwards, subs as for Subscribe         *)
 (*   Attest     jobs = the aggregation jobs found in the fake scheduler after the call, each    *)
 (*              with the validator of the Aggregate duty it carries, whether that duty carries  *)
 (*              the validator's slot signature and the attestation data root, and whether the   *)
 (*              job time lies within the slot                                                   *)
+(* Where the specification says the store keeps what it has (Head, failed Subscribe / Resub) the*)
+(* logged store is compared with the specification's on the part an attestation job can still   *)
+(* read with effect: the aggregating entries of slots that are not past and whose attestation   *)
+(* job has not run (an implementation may tidy up anything else).                               *)
 EXTENDS Subscriber, TraceLib
 
 VARIABLE l
@@ -19,12 +33,17 @@ TraceInit ==
     /\ l = 1
     /\ now = 0
     /\ target = 1
+    /\ geo = [spe |-> 1, ep |-> 0]
     /\ duties = {}
     /\ started = FALSE
     /\ info = {}
+    /\ infoD = {}
     /\ submitted = {}
     /\ subAt = NoSub
     /\ nsub = 0
+    /\ inflight = 0
+    /\ nref = 0
+    /\ nchg = 0
     /\ jobs = {}
     /\ attests = {}
     /\ done = {}
@@ -36,31 +55,56 @@ TraceReset ==
     /\ IsEvent("Reset")
     /\ now' = Trace[l].now
     /\ target' = Trace[l].target
+    /\ geo' = [spe |-> Trace[l].spe, ep |-> Trace[l].epoch]
     /\ duties' = {}
     /\ started' = FALSE
     /\ info' = {}
+    /\ infoD' = {}
     /\ submitted' = {}
     /\ subAt' = NoSub
     /\ nsub' = 0
+    /\ inflight' = 0
+    /\ nref' = 0
+    /\ nchg' = 0
     /\ jobs' = {}
     /\ attests' = {}
     /\ done' = {}
 
 TraceDuty ==
     /\ IsEvent("Duty")
-    /\ LET t == Trace[l] IN
-         AddDuty([v |-> t.v, slot |-> t.slot, committee |-> t.committee, size |-> t.size, h |-> t.h])
+    /\ LET t == Trace[l]
+           d == [v |-> t.v, slot |-> t.slot, committee |-> t.committee, size |-> t.size, h |-> t.h] IN
+         IF t.op = "drop" THEN DropDuty(d) ELSE AddDuty(d)
 
 TraceAdvance ==
     /\ IsEvent("Advance")
     /\ now' = Trace[l].now
-    /\ UNCHANGED <<target, duties, started, info, submitted, subAt, nsub, jobs, attests, done>>
+    /\ UNCHANGED <<target, geo, duties, started, info, infoD, submitted, subAt, nsub, inflight, nref, nchg, jobs, attests, done>>
+
+\* the part of a store an attestation job can still read with effect
+Rel(I, t, dn) == {e \in I : e.agg /\ e.slot >= t /\ e.slot \notin dn}
+StoreKept(logged) == Rel(SeqToSet(logged), now, done) = Rel(info', now, done)
 
 TraceSubscribe ==
     /\ IsEvent("Subscribe")
-    /\ SubscribeWith(SeqToSet(Trace[l].info), SeqToSet(Trace[l].subs))
+    /\ IF Trace[l].ok
+       THEN SubscribeWith(SeqToSet(Trace[l].info), SeqToSet(Trace[l].subs))
+       ELSE SubscribeFail /\ StoreKept(Trace[l].info)
 
-LoggedJobs(js) == {[slot |-> j.slot, committee |-> j.committee, v |-> j.v, at |-> j.at] : j \in js}
+TraceHead ==
+    /\ IsEvent("Head")
+    /\ IF Trace[l].reorg
+       THEN Refresh /\ Trace[l].resub = 1
+       ELSE (Housekeep \/ UNCHANGED vars) /\ Trace[l].resub = 0
+    /\ StoreKept(Trace[l].info)
+
+TraceResub ==
+    /\ IsEvent("Resub")
+    /\ IF Trace[l].ok
+       THEN ResubOk(SeqToSet(Trace[l].info), SeqToSet(Trace[l].subs))
+       ELSE ResubFail /\ StoreKept(Trace[l].info)
+
+LoggedJobs(js) == {[slot |-> j.slot, committee |-> j.committee, v |-> j.v, at |-> j.at, exact |-> JobExact(j)] : j \in js}
 
 TraceAttest ==
     /\ IsEvent("Attest")
@@ -70,12 +114,12 @@ TraceAttest ==
          /\ jobs' = jobs \cup LoggedJobs(js)
          /\ \A j \in js : j.sigok /\ j.rootok /\ j.inslot
 
-TraceNext == TraceReset \/ TraceDuty \/ TraceAdvance \/ TraceSubscribe \/ TraceAttest
+TraceNext == TraceReset \/ TraceDuty \/ TraceAdvance \/ TraceSubscribe \/ TraceHead \/ TraceResub \/ TraceAttest
 
 TraceSpec == TraceInit /\ [][TraceNext]_tvars
 
 \* every modulus that occurs divides HMod (otherwise the reduced h would not determine the rule)
-TraceTypeOK == \A d \in duties : d.h \in 0..(HMod - 1) /\ HMod % Modulus(d.size, target) = 0
+TraceTypeOK == \A d \in duties : d.h \in 0..(HMod - 1) /\ HMod % Modulus(d.size, target) = 0 /\ EpochOf(d.slot) = geo.ep
 
 HWM == UpdateHWM(l)
 TraceAccepted == TraceAcceptedUpTo
